@@ -25,6 +25,10 @@ def harnesses(tier):
             scenario_harness("nested-forever-scheduler", Profile(
                 templates=("N12",), forever="free", forever_sched="free", perm="id", crit_job=False,
                 crit_sched=False), o, required_notes=req),
+            scenario_harness("nested-forever-scheduler-with-window", Profile(
+                templates=("N12",), forever_sched=True, never="free", forever="free", window="always",
+                window_scope="nested", perm="id", crit_job=False, crit_sched=False, edges="none"), o,
+                required_notes=req),
             scenario_harness("nested-forever-scheduler-handlers", Profile(
                 templates=("N12",), forever_sched="free", sd="free", lat="free", perm="id", crit_job=False,
                 crit_sched=False, edges="none"), o, required_notes=req + ("propagated_cancellations",)),
